@@ -164,8 +164,8 @@ Section Spec.
   (* `if exclude and ...` / `if include and ...`: an empty or absent list is no rule at all *)
   Definition ruleset_of (exclude include : option (list string)) : ruleset :=
     match exclude, include with
-    | Some (_ :: _ as ex), _ => RExclude (map split_path ex)
-    | _, Some (_ :: _ as inc) => RInclude (map split_path inc)
+    | Some ((_ :: _) as ex), _ => RExclude (map split_path ex)
+    | _, Some ((_ :: _) as inc) => RInclude (map split_path inc)
     | _, _ => RAll
     end.
 
